@@ -348,6 +348,27 @@ def simp(t):
     return t
 
 
+def node_labels(doc):
+    """the label texts of the node statements  <id>[label="..."]  among the output statements of a (simplified) document"""
+    need(doc[0] == "Cat", "document is not a sequence")
+    stars = [p for p in doc[1] if p[0] == "Star"]
+    need(stars, "document has no repeated part")
+    sites = stars[0][1][1] if stars[0][1][0] == "Alt" else [stars[0][1]]
+    labels = []
+    for t in sites:
+        if not (t[0] == "Cat" and len(t[1]) >= 3 and t[1][0] == ("Hole", "HDigits") and t[1][1][0] == "Lit" and t[1][1][1].lstrip().startswith("[")):
+            continue
+        first, last = t[1][1][1], t[1][-1]
+        if not first.lstrip().startswith("[dir"):
+            pre = next((x for x in ('[label="', '[ label="') if first.startswith(x)), None)
+            need(pre is not None, "node statement with an unexpected attribute list: %r" % first[:30])
+            need(last[0] == "Lit" and last[1].rstrip("\n").endswith('"]'), "node statement does not end with the label")
+            body = last[1].rstrip("\n")[:-2]
+            labels.append(simp(("Cat", [("Lit", first[len(pre):])] + list(t[1][2:-1]) + [("Lit", body)])))
+    need(labels, "no node statement found")
+    return labels
+
+
 def coq_tx(t):
     if t[0] == "Lit":
         return "TLit %s" % coq_codes(t[1])
@@ -451,7 +472,9 @@ def translate():
              "Definition repr_limit : nat := %d." % limit,
              "Definition model_doc : tx :=\n  %s." % coq_tx(simp(model_doc)),
              "Definition metamodel_doc : tx :=\n  %s." % coq_tx(simp(mm_doc)),
-             "Definition plantuml_doc : tx :=\n  %s." % coq_tx(simp(pu_doc))]
+             "Definition plantuml_doc : tx :=\n  %s." % coq_tx(simp(pu_doc)),
+             "Definition model_labels : list tx :=\n  [%s]." % ";\n   ".join(coq_tx(t) for t in node_labels(model_doc)),
+             "Definition metamodel_labels : list tx :=\n  [%s]." % ";\n   ".join(coq_tx(t) for t in node_labels(mm_doc))]
     emit("SrcExport", "\n".join(lines) + "\n")
     return []
 
